@@ -11,7 +11,7 @@ import (
 
 // C17: UnAckQueue vs Model/Queue.v
 type qOp struct {
-	Op string `json:"op"` // push pop popn peek peekn empty
+	Op string `json:"op"` // push pushshared pushpeek pop popn peek peekn empty
 	S  string `json:"s,omitempty"`
 	K  int    `json:"k,omitempty"`
 }
@@ -28,7 +28,7 @@ func (c17) ID() string    { return "C17" }
 func (c17) RunFn() string { return "run_C17" }
 func (c17) Workers() int  { return 8 }
 func (c17) Rule() string {
-	return "random histories (0-60 ops) over push/pop/popn k/peek/peekn k/empty, k in {-3..len+3} plus extreme values, payloads from a small pool; distinct = distinct op-kind/k-class sequence; non-trivial = at least one pop or peek on a non-empty queue and at least 3 ops"
+	return "random histories (0-60 ops) over push/pop/popn k/peek/peekn k/empty, k in {-3..len+3} plus extreme values, payloads from a small pool; one push in three re-uses a caller-owned *UnAckedStz that is overwritten after the push, or re-queues the current head (q.Push(q.Peek())); distinct = distinct op-kind/k-class sequence; non-trivial = at least one pop or peek on a non-empty queue and at least 3 ops"
 }
 
 func (c17) Gen(r *rand.Rand, tier string) []interface{} {
@@ -51,7 +51,15 @@ func (c17) Gen(r *rand.Rand, tier string) []interface{} {
 			var o qOp
 			switch c := r.Intn(10); {
 			case c < pushBias:
-				o = qOp{Op: "push", S: pool[r.Intn(len(pool))] + fmt.Sprint(j)}
+				switch k := r.Intn(6); {
+				case k == 0:
+					// the caller re-uses one *UnAckedStz variable for several pushes (and overwrites it afterwards)
+					o = qOp{Op: "pushshared", S: pool[r.Intn(len(pool))] + fmt.Sprint(j)}
+				case k == 1 && size > 0:
+					o = qOp{Op: "pushpeek"} // q.Push(q.Peek()): the head is queued again
+				default:
+					o = qOp{Op: "push", S: pool[r.Intn(len(pool))] + fmt.Sprint(j)}
+				}
 				size++
 			case c < pushBias+1:
 				o = qOp{Op: "pop"}
@@ -132,9 +140,26 @@ func (c17) Run(inp interface{}) Sx {
 		q = stanza.NewUnAckQueue()
 	}
 	var steps []Sx
+	shared := &stanza.UnAckedStz{}
 	for _, o := range in.Ops {
 		var r Sx
 		switch o.Op {
+		case "pushshared":
+			shared.Id, shared.Stz = 555, o.S
+			if err := q.Push(shared); err != nil {
+				r = L(Z(98))
+			} else {
+				r = L()
+			}
+			shared.Id, shared.Stz = -1, "OVERWRITTEN-AFTER-PUSH" // the queue must hold its own copy
+		case "pushpeek":
+			if h := q.Peek(); h == nil {
+				r = queueableSx(q.Peek())
+			} else if err := q.Push(h); err != nil {
+				r = L(Z(98))
+			} else {
+				r = L()
+			}
 		case "push":
 			err := q.Push(&stanza.UnAckedStz{Id: 777, Stz: o.S})
 			if err != nil {
@@ -164,8 +189,48 @@ func (c17) Run(inp interface{}) Sx {
 	return LS(steps)
 }
 
+// c17Normalise rewrites the aliasing variants into plain pushes of the payload they
+// must queue (pushpeek: a copy of the current head), so that model and oracle see them
+// as what they have to be.
+func c17Normalise(ops []qOp) []qOp {
+	out := make([]qOp, 0, len(ops))
+	var ref []string
+	take := func(k int) int {
+		if k <= 0 {
+			return 0
+		}
+		if k > len(ref) {
+			return len(ref)
+		}
+		return k
+	}
+	for _, o := range ops {
+		switch o.Op {
+		case "pushshared":
+			o = qOp{Op: "push", S: o.S}
+		case "pushpeek":
+			if len(ref) == 0 {
+				o = qOp{Op: "peek"} // nothing to re-queue: Push(nil) is refused; harmless stand-in
+			} else {
+				o = qOp{Op: "push", S: ref[0]}
+			}
+		}
+		switch o.Op {
+		case "push":
+			ref = append(ref, o.S)
+		case "pop":
+			ref = ref[take(1):]
+		case "popn":
+			ref = ref[take(o.K):]
+		}
+		out = append(out, o)
+	}
+	return out
+}
+
 func (c17) Input(inp interface{}) Sx {
 	in := inp.(c17In)
+	in.Ops = c17Normalise(in.Ops)
 	items := make([]Sx, len(in.Ops))
 	for i, o := range in.Ops {
 		switch o.Op {
@@ -189,6 +254,7 @@ func (c17) Input(inp interface{}) Sx {
 // Direct oracle: an independent reference FIFO over Go slices.
 func (c17) Oracle(inp interface{}, obs Sx) (string, string) {
 	in := inp.(c17In)
+	in.Ops = c17Normalise(in.Ops)
 	if len(obs.L) != len(in.Ops) {
 		return "step count differs", "shape"
 	}
@@ -298,6 +364,12 @@ func (c17) Oracle(inp interface{}, obs Sx) (string, string) {
 
 func (c17) Key(inp interface{}) (string, bool) {
 	in := inp.(c17In)
+	for _, o := range in.Ops {
+		if o.Op == "pushshared" || o.Op == "pushpeek" {
+			hist("op:" + o.Op)
+		}
+	}
+	in.Ops = c17Normalise(in.Ops)
 	var b strings.Builder
 	size, hit := 0, false
 	for _, o := range in.Ops {
